@@ -30,6 +30,10 @@ Ltac case_goal :=
   | |- context [if ?x then _ else _] => destruct x eqn:?
   end.
 
+(* the end of adj_outer's loop: the best attempt's state gets the caller's scope back, or (never) panics *)
+Ltac adj_nil H :=
+  match type of H with context [set_scope ?a ?b ?c] => destruct (set_scope a b c); discriminate H end.
+
 Ltac discr := match goal with H : _ = _ |- _ => discriminate H end.
 
 Global Arguments BpafModel.Message.render_message : simpl never.
